@@ -81,6 +81,7 @@ func main() {
 	debug.SetGCPercent(-1)
 	debug.SetMaxStack(256 << 20)
 	simrt.StartWatchdog(60 * time.Second)
+	exitWhenOrphaned()
 	classifier = classifyBySite()
 
 	switch *mode {
@@ -303,4 +304,17 @@ func heapBig() bool {
 	var ms runtime.MemStats
 	runtime.ReadMemStats(&ms)
 	return ms.HeapAlloc > 256<<20
+}
+
+// exitWhenOrphaned ends this process when its parent is gone.
+func exitWhenOrphaned() {
+	ppid := os.Getppid()
+	go func() {
+		for {
+			time.Sleep(2 * time.Second)
+			if os.Getppid() != ppid {
+				os.Exit(3)
+			}
+		}
+	}()
 }
